@@ -373,7 +373,13 @@ def run_check(plugin, prop, tier, seed, skip_lean=False) -> int:
             cov.update(plugin.extra_coverage(res))
         except Exception as e:
             cov['extra_coverage_error'] = repr(e)
-    ev = {'property_id': prop, 'tier': tier, 'seed': seed, 'level': 'proof', 'coverage': cov,
+    level = 'proof'
+    if lean['proof_broken'] or lean['discharged'] < max(lean['obligations'], 1):
+        # the proof-level claim is not met on this run (broken obligation / audit): what remains is the differential exploration
+        level = 'exploration'
+        cov['explanation'] = ('proof obligations of this property did not check on this tree (see proof_broken); the figures below '
+                              'describe the correspondence / oracle exploration only')
+    ev = {'property_id': prop, 'tier': tier, 'seed': seed, 'level': level, 'coverage': cov,
           'assumptions': list(getattr(plugin, 'ASSUMPTIONS', [])), 'wall_s': round(time.time() - t0, 2), 'violations': nviol}
     os.makedirs(os.path.join(ROOT, 'evidence'), exist_ok=True)
     with open(os.path.join(ROOT, 'evidence', f'{prop}.json'), 'w') as f:
